@@ -100,6 +100,7 @@ struct vout {
 	unsigned int max_samples;
 	unsigned long nviol;
 	unsigned int nt_mod; /* record only hashes with h % nt_mod == 0 (1 = all) */
+	bool muted; /* dry runs: monitors stay silent */
 };
 
 extern struct vout VO;
@@ -147,6 +148,8 @@ static inline void vo_case(long c)
 /* counters: linear lookup over a small table keyed by string */
 static inline void cnt_add(const char *k, uint64_t v)
 {
+	if (VO.muted)
+		return;
 	for (unsigned int i = 0; i < VCNT_N; i++) {
 		if (VCNT[i].k == k || strcmp(VCNT[i].k, k) == 0) {
 			VCNT[i].v += v;
@@ -163,6 +166,8 @@ static inline void cnt_add(const char *k, uint64_t v)
 
 static inline void cnt_max(const char *k, uint64_t v)
 {
+	if (VO.muted)
+		return;
 	for (unsigned int i = 0; i < VCNT_N; i++) {
 		if (strcmp(VCNT[i].k, k) == 0) {
 			if (v > VCNT[i].v)
@@ -208,12 +213,32 @@ static inline void viol(const char *prop, const char *key, const char *fmt, ...)
 	char b[2048];
 	va_list ap;
 
+	if (VO.muted)
+		return;
 	va_start(ap, fmt);
 	vsnprintf(b, sizeof(b), fmt, ap);
 	va_end(ap);
 	VO.nviol++;
-	if (VO.nviol > 200) /* enough witnesses per worker */
-		return;
+	{
+		/* at most 3 witnesses per key and worker, so that a noisy key cannot hide another one */
+		static uint64_t seen_h[256];
+		static unsigned char seen_n[256];
+		uint64_t h = hbytes(0x77, key, strlen(key));
+		unsigned int slot = (unsigned int)(h % 256), probes = 0;
+
+		while (seen_h[slot] && seen_h[slot] != h && probes++ < 256)
+			slot = (slot + 1) % 256;
+		if (seen_h[slot] == h) {
+			if (seen_n[slot] >= 3)
+				return;
+			seen_n[slot]++;
+		} else if (!seen_h[slot]) {
+			seen_h[slot] = h;
+			seen_n[slot] = 1;
+		} else {
+			return;
+		}
+	}
 	fprintf(VO.f, "{\"t\":\"viol\",\"prop\":\"%s\",\"key\":", prop);
 	json_str(VO.f, key);
 	fprintf(VO.f, ",\"case\":%ld,\"msg\":", VO.cur_case);
@@ -225,7 +250,7 @@ static inline void viol(const char *prop, const char *key, const char *fmt, ...)
 /* a case is non-trivial (rule stated by each harness); h identifies it for distinct counting */
 static inline void nontrivial(uint64_t h)
 {
-	if (VO.nt && (h % VO.nt_mod) == 0)
+	if (VO.nt && !VO.muted && (h % VO.nt_mod) == 0)
 		fwrite(&h, sizeof(h), 1, VO.nt);
 }
 
@@ -239,7 +264,7 @@ static inline void sample(const char *fmt, ...)
 {
 	va_list ap;
 
-	if (VO.samples >= VO.max_samples)
+	if (VO.samples >= VO.max_samples || VO.muted)
 		return;
 	VO.samples++;
 	fprintf(VO.f, "{\"t\":\"sample\",\"case\":%ld,\"v\":", VO.cur_case);
